@@ -65,8 +65,14 @@ func (w *World) regenerate() error {
 		{"path_eval", "xpath/grammars/path_eval", "path_eval.y", "pathEval", "path_eval.go"},
 		{"leafref", "xpath/grammars/leafref", "leafref.y", "leafref", "leafref.go"},
 	}
+	ovDir := os.Getenv("YV_OVERLAY_DIR")
 	for _, x := range gs {
 		ypath := filepath.Join(w.Repo, x.dir, x.y)
+		if ovDir != "" {
+			if _, err := os.Stat(filepath.Join(ovDir, x.dir, x.y)); err == nil {
+				ypath = filepath.Join(ovDir, x.dir, x.y)
+			}
+		}
 		src, err := os.ReadFile(ypath)
 		if err != nil {
 			return fmt.Errorf("grammar %s: %v", x.name, err)
@@ -99,6 +105,11 @@ func (w *World) regenerate() error {
 		gr.Prefix = x.prefix
 		if c, err := os.ReadFile(gr.CommittedPath); err == nil {
 			gr.Committed = c
+		}
+		if ovDir != "" {
+			if c, err := os.ReadFile(filepath.Join(ovDir, x.dir, x.out)); err == nil {
+				gr.Committed = c
+			}
 		}
 		w.Gram[x.name] = gr
 	}
